@@ -128,3 +128,34 @@ fn c13_pending_acks_unbounded_on_descending_arrival() {
         assert!(p.len() <= 1300, "packet of {} bytes", p.len());
     }
 }
+
+/// C09 (U5 discard.every_stale_fragment_collected): the scan for stale unreliable fragments stopped at the first fresh
+/// message id; a stale fragment with a higher id stayed accounted for as long as a lower id kept receiving (duplicate)
+/// slices, so "stop counting after 3 s without progress" did not hold and in-budget messages were dropped.
+#[test]
+fn c09_stale_unreliable_fragment_behind_a_fresh_one_is_discarded() {
+    use renet::{ChannelConfig, SendType};
+    use std::time::Duration;
+    let config = ConnectionConfig {
+        available_bytes_per_tick: 60_000,
+        server_channels_config: vec![ChannelConfig { channel_id: 0, max_memory_usage_bytes: 4800, send_type: SendType::Unreliable }],
+        client_channels_config: vec![ChannelConfig { channel_id: 0, max_memory_usage_bytes: 4800, send_type: SendType::Unreliable }],
+    };
+    let mut client = RenetClient::new(config);
+    client.set_connected();
+    // t = 0: first slice of two 2-slice messages (ids 0 and 1): 2 x 2400 bytes reserved = the whole budget
+    let first_of_0 = slice_packet(3, 0, 0, 0, 0, 2, &[1u8; 1200]);
+    client.process_packet(&first_of_0);
+    client.process_packet(&slice_packet(3, 1, 0, 1, 0, 2, &[2u8; 1200]));
+    // t = 2.5 s: the network duplicates the first slice of message 0 (refreshes its timer)
+    client.update(Duration::from_millis(2500));
+    client.process_packet(&first_of_0);
+    // t = 3.5 s: message 1 made no progress for 3.5 s and must stop counting
+    client.update(Duration::from_millis(1000));
+    // a complete 2-slice message (id 2) now fits the budget again
+    client.process_packet(&slice_packet(3, 2, 0, 2, 0, 2, &[3u8; 1200]));
+    client.process_packet(&slice_packet(3, 3, 0, 2, 1, 2, &[3u8; 10]));
+    assert!(!client.is_disconnected());
+    let m = client.receive_message(0u8).expect("in-budget message dropped: a stale fragment was still accounted after 3 s");
+    assert_eq!(m.len(), 1210);
+}
